@@ -12,7 +12,7 @@ from sqllineage.core.parser.sqlfluff.utils import (
     list_child_segments,
 )
 from sqllineage.utils.entities import ColumnQualifierTuple
-from sqllineage.utils.helpers import escape_identifier_name
+from sqllineage.utils.helpers import EscapedIdentifier, escape_identifier_name
 
 NON_IDENTIFIER_OR_COLUMN_SEGMENT_TYPE = [
     "partitionby_clause",
@@ -60,11 +60,13 @@ class SqlFluffTable(Table):
         )
         # rewrite identifier's get_parent_name accordingly
         parent_name = (
-            "".join(
-                [
-                    escape_identifier_name(segment.raw)
-                    for segment in table.segments[:dot_idx]
-                ]
+            EscapedIdentifier(
+                "".join(
+                    [
+                        escape_identifier_name(segment.raw)
+                        for segment in table.segments[:dot_idx]
+                    ]
+                )
             )
             if dot_idx
             else None
